@@ -4,6 +4,26 @@ import json
 props = [json.loads(l) for l in open('/verif/properties.jsonl')]
 claimed = {
  # id: (level, technique, text, note, design_ref)
+ "C01": ("exploration",
+         "exhaustive bounded enumeration of handshake lines x client configurations through the real Client.Start under virtual time, against a reference grammar",
+         "All lines with <= k of 8 coordinates off-canonical (k=2/1 quick, 3 thorough; alphabets include empty, garbage, out-of-range, extra/missing fields, CRLF, blanks, EOF/silence/oversize shapes) x 72 client configurations; each case is one deterministic execution of the real Start with a scripted runner; oracle: success only if the reference grammar accepts, reported address/protocol/version/plugin set equal the line's, no panic, Start within StartTimeout, runner killed on error.",
+         "Trusts: the reference grammar (60 lines of Go, one-directional); scripted runner instead of a real process (Cmd path covered by C05/C14 E3 parts); DNS names outside the alphabet.",
+         "DESIGN.md §3 C01"),
+ "C02": ("exploration",
+         "exhaustive enumeration of (host version config, plugin version config) pairs: real Client.Start joined to the real protocolVersion, against max(H∩P)",
+         "Every pair of version configurations over a universe of 3 (quick) / 4 (thorough) versions including legacy fields on either side, GRPCServer nil/set, per-version protocols, and missing / junk / duplicated version lists; oracle: announced = highest common version else plugin's lowest, both sides use the set registered under it, protocol is that set's, incompatible => Start fails with the incompatible-version error and the plugin is killed. Multi-candidate pairs repeated for map-order variation.",
+         "Trusts: reference max(H∩P); the harness's one-line replica of Serve's Printf (bound to a real Serve by C16); map iteration order is sampled by repetition, not controlled.",
+         "DESIGN.md §3 C02"),
+ "C05": ("fault_enumeration",
+         "exhaustive enumeration of start-failure causes through the real Client.Start with a scripted runner under virtual time",
+         "Every single-coordinate (thorough: pair) failure of the handshake line plus silence-until-timeout, partial line, exit before output, EOF without newline and oversize line, x 72 client configurations; oracle: whenever Start returns an error after launch the runner's Kill had been invoked by then, a following Kill returns within 3 s and removes the plugin-dir* directory, nothing stays blocked.",
+         "Trusts: scripted runner (RunnerFunc) models process exit / kill; real-process (Cmd) liveness is the E3 part's subject.",
+         "DESIGN.md §3 C05"),
+ "C19": ("model_checking",
+         "exhaustive enumeration of call sequences against a reference model + deviation-bounded schedule exploration of concurrent calls on one real Client",
+         "Sequential: all call sequences of length <= 3 (quick) / 5 (thorough) over 7 operations x 5 plugin behaviours, compared with a reference (launch count, address identity, client identity, no launch after Kill). Concurrent: all pairs (thorough: triples, 2x2) of operations under every schedule with <= 2/3 deviations. Two known findings (relaunch after a failed start) are keyed on 'after a start that failed post-launch'.",
+         "Trusts: scripted runner; reference model; RunnerFunc launch only.",
+         "DESIGN.md §3 C19"),
  "C07": ("model_checking",
          "stateless deviation-bounded exploration of the real GRPCBroker + real gRPC under a controlled scheduler and virtual clock",
          "Every schedule, timer order and select choice with at most d deviations (1-id patterns d=2/3, 2-id patterns d=1/2) of the real host GRPCClient/GRPCBroker and plugin GRPCServer/GRPCBroker over real gRPC on virtual sockets, for every pattern of dial side x issue order x gap; oracle: the PingPong tag answered on the dialled connection is the id's, first call succeeds inside the window, no deadlock, no leaked go-plugin goroutine after Close.",
